@@ -12,3 +12,28 @@ def c09_intraday_weekend_monotone(case, result):
     t1, t2 = case['t1'], case['t2']
     wd = lambda t: (t // DAY + 6) % 7
     return (t1 % DAY) != (t2 % DAY) and wd(t1) > 4 and 'days' not in (result.get('viol') or '')
+
+def c16_dict_add_subclass_operand(case, result):
+    # Dict.__add__ is tree_update(self, other); tree_items recognises a branch by EXACT type (dict, Dict, dictattr), so an
+    # `other` that is an instance of any further dict subclass is taken for a leaf and the call raises ValueError
+    return (case.get('kind') == 'dict' and case.get('op') == 'add' and case.get('cls') in ('Dict', 'UD')
+            and case.get('other', {}).get('cls') in ('UA', 'UD') and result.get('status') == 'ValueError')
+
+def c19_as_tuple_single_list(case, result):
+    # as_tuple(v) is a 1-tuple holding a list (e.g. as_tuple([[1, 2]]) = ([1, 2],)): the second application unpacks that list
+    if case.get('kind') != 'as' or not case.get('tuple'):
+        return False
+    obs = result.get('obs') or []
+    r1 = obs[0] if obs else None
+    return isinstance(r1, list) and len(r1) == 2 and r1[0] == 'T' and isinstance(r1[1], list) and r1[1][:1] == ['L']
+
+def c10_rrule_drops_microseconds(case, result):
+    # int / None / single forward period-string bumps go through dateutil.rrule, which truncates the
+    # microseconds of dtstart: only the sub-second part of every returned date differs
+    b = case.get('bump')
+    if case['t0'] % 1000000 == 0 or result.get('status') != 'ok':
+        return False
+    if not (b is None or 'int' in b or ('str' in b)):
+        return False
+    obs = result.get('obs') or []
+    return bool(obs) and all(x % 1000000 == 0 for x in obs) and 'returned %d dates' % len(obs) in (result.get('viol') or '') and 'gives %d dates' % len(obs) in (result.get('viol') or '')
